@@ -38,7 +38,7 @@ class Case:
         return d
 
 
-def run_cases(cases, model=True, extra_requests=None):
+def run_cases(cases, model=True, extra_requests=None, parse_model=True):
     """Runs impl and model. extra_requests(case) -> list of extra driver request lines issued after
     `load` (answers stored in case.extra)."""
     groups = [c.jobs() for c in cases]
@@ -72,7 +72,7 @@ def run_cases(cases, model=True, extra_requests=None):
                 c.n_extra = len(ex)
             c.model_idx = []
             for k, ((algo, partial, inp, _m), mat) in enumerate(zip(c.inputs, c.matrices)):
-                if c.results[k].startswith("skipped") or c.results[k] == "notable":
+                if not parse_model or c.results[k].startswith("skipped") or c.results[k] == "notable":
                     continue
                 c.model_idx.append(k)
                 if "@" in algo:
